@@ -5,11 +5,13 @@ driver, ℝ for the mathematics); the tolerance tests are stated over ℚ (they 
 
 Angle: evo's rotation angle is `atan2(√s², c)` of the *core* `(c, s²) = M3.angleCore R`
 (`c = (tr R − 1)/2 = cos θ`, `s² = ‖vee((R − Rᵀ)/2)‖² = sin² θ`); the metric clauses are proved on
-the core.  **Open:** the triangle inequality of the angle (tested by the oracle only).
+the core and, over ℝ, on `angleR = atan2(√s², c)` itself, including the triangle inequality
+(`angle_triangle`, through unit quaternions).
 exp/log: scipy's `so3_exp`/`so3_log` are tied by the Rodrigues certificate; the `_partial`
 theorems are the polynomial content of exp∘log = id and log∘exp = id (see each docstring).
 -/
 import EvoModel.Lemmas.Lie
+import EvoModel.Lemmas.QuatAngle
 namespace Evo.C09
 open Evo Evo.Lie
 
@@ -414,6 +416,30 @@ theorem angle_zero_iff_eq_real (a b : M3 ℝ) (ha : IsRot a) (hb : IsRot b) :
     rw [hc] at h1 ⊢
     have hs0 : (relSo3 a b).angleCore.2 = 0 := by linarith
     rw [hs0]; simp
+
+/-- **triangle inequality** of the rotation angle, for all proper rotations:
+`d(A, C) ≤ d(A, B) + d(B, C)`.  Through unit quaternions (`Lemmas/QuatAngle.lean`): a rotation of
+angle `< π` is `quatRot q` (Shepperd), `tr(R(p)ᵀR(q)) = 4⟨p,q⟩² − 1`, so the angle is
+`2·arccos|⟨p,q⟩|`, twice the metric of projective 3-space, whose triangle inequality is Mathlib's
+`angle_le_angle_add_angle` on `p, ±q, ±r`; a relative rotation of angle exactly π already has the
+largest possible angle. -/
+theorem angle_triangle (a b c : M3 ℝ) (ha : IsRot a) (hb : IsRot b) (hc : IsRot c) :
+    angleR a c ≤ angleR a b + angleR b c := by
+  rw [(angle_eq_arccos a c ha hc).1, (angle_eq_arccos a b ha hb).1, (angle_eq_arccos b c hb hc).1]
+  have hmul : relSo3 a c = (relSo3 a b).mul (relSo3 b c) := by
+    unfold relSo3
+    rw [M3.mul_assoc', ← M3.mul_assoc' b, hb.1.mul_transpose, M3.one_mul']
+  rw [hmul]
+  exact arccos_core_mul_le _ _ (relSo3_isRot ha hb) (relSo3_isRot hb hc)
+
+/-- the rotation angle is a metric on SO(3): all four axioms together, plus bi-invariance -/
+theorem angle_is_biinvariant_metric (a b c t : M3 ℝ) (ha : IsRot a) (hb : IsRot b) (hc : IsRot c)
+    (ht : IsRot t) :
+    (0 ≤ angleR a b ∧ angleR a b ≤ π) ∧ (angleR a b = 0 ↔ a = b) ∧ angleR b a = angleR a b ∧
+    angleR a c ≤ angleR a b + angleR b c ∧
+    angleR (t.mul a) (t.mul b) = angleR a b ∧ angleR (a.mul t) (b.mul t) = angleR a b :=
+  ⟨angle_range_real a b, angle_zero_iff_eq_real a b ha hb, angle_symm_real a b,
+   angle_triangle a b c ha hb hc, angle_left_invariant_real t a b ht.1, angle_right_invariant_real t a b ht.1⟩
 
 /-! ### exp and log over ℝ (`expR`, `logR` of `Lemmas/Lie.lean`: Rodrigues with `θ = ‖v‖`) -/
 
